@@ -2,7 +2,7 @@
    This file holds only the property theorems, each closed by `exact <lemma>`, with
    Print Assumptions beneath, and non-vacuity examples.
    Model: C12/Model.v (tied to distsys/resources/{gcounter,aworset,lww}.go by ./check C12). *)
-From PGV Require Import C12.Model C12.ProofsAL C12.ProofsGC C12.ProofsSys C12.ProofsGCHist C12.ProofsLWW C12.ProofsAW.
+From PGV Require Import C12.Model C12.ProofsAL C12.ProofsGC C12.ProofsSys C12.ProofsGCHist C12.ProofsLWW C12.ProofsAW C12.ProofsConv.
 From Coq Require Import Lia.
 Open Scope Z_scope.
 
@@ -258,3 +258,84 @@ Proof.
   - apply aw_reachable_wf. apply aw_short_valid. cbn. lia.
   - split; vm_compute; reflexivity.
 Qed.
+
+(* on states whose entries are, element by element, pairwise comparable (absent, equivalent, or one
+   clock strictly below the other: what updates of an element ordered by happens-before produce),
+   Merge IS associative: the failure needs concurrent updates of the same element *)
+Theorem aworset_merge_assoc_partial : forall a b c, aw_wf a -> aw_wf b -> aw_wf c ->
+  (forall e, comparable (ent e a) (ent e b) /\ comparable (ent e b) (ent e c) /\ comparable (ent e a) (ent e c)) ->
+  aw_eqv (aw_merge (aw_merge a b) c) (aw_merge a (aw_merge b c)).
+Proof. exact aw_merge_assoc_partial. Qed.
+Print Assumptions aworset_merge_assoc_partial.
+
+Example aworset_partial_nonvacuous :
+  let ops := [OWrite 0 (1, 7); OSnap 0 false; ODeliver 1 0%nat; OWrite 1 (2, 7); OSnap 1 true;
+              ODeliver 2 1%nat; OWrite 2 (1, 7); OWrite 2 (1, 8); OSnap 2 false] in
+  exists a b c, nth_error (pool (aw_run ops)) 0 = Some a /\ nth_error (pool (aw_run ops)) 1 = Some b /\
+                nth_error (pool (aw_run ops)) 2 = Some c /\ aw_wf a /\ aw_wf b /\ aw_wf c /\
+  (forall e, comparable (ent e a) (ent e b) /\ comparable (ent e b) (ent e c) /\ comparable (ent e a) (ent e c)).
+Proof.
+  cbn zeta. eexists. eexists. eexists. split; [vm_compute; reflexivity|]. split; [vm_compute; reflexivity|].
+  split; [vm_compute; reflexivity|].
+  assert (Hv : aw_valid [OWrite 0 (1, 7); OSnap 0 false; ODeliver 1 0%nat; OWrite 1 (2, 7); OSnap 1 true;
+              ODeliver 2 1%nat; OWrite 2 (1, 7); OWrite 2 (1, 8); OSnap 2 false]).
+  { refine (aw_short_valid _ _). cbn. lia. }
+  destruct (aw_reachable_wf _ Hv) as [_ Hp]. rewrite Forall_forall in Hp.
+  split; [apply Hp; vm_compute; tauto|]. split; [apply Hp; vm_compute; tauto|]. split; [apply Hp; vm_compute; tauto|].
+  clear Hv Hp.
+  assert (L01 : ent_le (Some (EAdd [(0, 1)])) (Some (ERem [(0, 1); (1, 1)]))).
+  { right. right. eexists. eexists. split; [reflexivity|]. split; [reflexivity|]. split; [discriminate|]. split; [discriminate|].
+    split.
+    - intros k. cbn [clock_of]. unfold gc_getd. cbn [get]. destruct (k =? 0); [lia|]. destruct (k =? 1); lia.
+    - exists 1. vm_compute. reflexivity. }
+  assert (L12 : ent_le (Some (ERem [(0, 1); (1, 1)])) (Some (EAdd [(0, 1); (1, 1); (2, 1)]))).
+  { right. right. eexists. eexists. split; [reflexivity|]. split; [reflexivity|]. split; [discriminate|]. split; [discriminate|].
+    split.
+    - intros k. cbn [clock_of]. unfold gc_getd. cbn [get]. destruct (k =? 0); [lia|]. destruct (k =? 1); [lia|]. destruct (k =? 2); lia.
+    - exists 2. vm_compute. reflexivity. }
+  intros e. destruct (Z.eq_dec e 7) as [->|H7]; [|destruct (Z.eq_dec e 8) as [->|H8]].
+  - vm_compute ent. split; [left; exact L01|]. split; [left; exact L12|left; eapply ent_le_trans; eauto].
+  - vm_compute ent. repeat split; left; right; now left.
+  - assert (Hn : forall m, ent e {| aw_add := fst m; aw_rem := snd m |} = ent e {| aw_add := fst m; aw_rem := snd m |}) by reflexivity.
+    unfold ent. cbn. assert (e =? 7 = false) as -> by lia. assert (e =? 8 = false) as -> by lia.
+    repeat split; left; left; exact I.
+Qed.
+
+(* ================================================================ "hence" *)
+(* the classical derivation, once for any state type: commutative + associative + idempotent merge
+   with unit init, respected by the equivalence, inflationary writes and state-preserving transport
+   ==> replicas that were delivered the same set of updates have equivalent states, in every history *)
+Section Hence.
+  Variables (S A : Type) (init : S) (write : Z -> A -> S -> S) (merge : S -> S -> S) (hop : S -> S).
+  Variables (wf : S -> Prop) (eqv : S -> S -> Prop) (wpre : Z -> A -> S -> Prop).
+  Hypothesis eqv_refl : forall a, eqv a a.
+  Hypothesis eqv_sym : forall a b, eqv a b -> eqv b a.
+  Hypothesis eqv_trans : forall a b c, eqv a b -> eqv b c -> eqv a c.
+  Hypothesis wf_init : wf init.
+  Hypothesis wf_merge : forall a b, wf a -> wf b -> wf (merge a b).
+  Hypothesis wf_write : forall r a s, wf s -> wpre r a s -> wf (write r a s).
+  Hypothesis wf_hop : forall s, wf s -> wf (hop s).
+  Hypothesis merge_eqv : forall a a' b b', wf a -> wf a' -> wf b -> wf b' -> eqv a a' -> eqv b b' -> eqv (merge a b) (merge a' b').
+  Hypothesis merge_comm : forall a b, wf a -> wf b -> eqv (merge a b) (merge b a).
+  Hypothesis merge_assoc : forall a b c, wf a -> wf b -> wf c -> eqv (merge (merge a b) c) (merge a (merge b c)).
+  Hypothesis merge_idem : forall a, wf a -> eqv (merge a a) a.
+  Hypothesis merge_init : forall a, wf a -> eqv (merge init a) a.
+  Hypothesis write_infl : forall r a s, wf s -> wpre r a s -> eqv (merge s (write r a s)) (write r a s).
+  Hypothesis hop_eqv : forall s, wf s -> eqv (hop s) s.
+
+  Theorem strong_convergence_from_laws : forall ops r1 r2, valid S A init write merge hop wpre ops ->
+    same_updates (delivered S A init write merge hop ops r1) (delivered S A init write merge hop ops r2) ->
+    eqv (reps (run S A init write merge hop ops) r1) (reps (run S A init write merge hop ops) r2).
+  Proof. eapply semilattice_convergence; eassumption. Qed.
+End Hence.
+Print Assumptions strong_convergence_from_laws.
+
+Theorem gcounter_convergence_from_laws : forall ops r1 r2, gc_valid ops ->
+  same_updates (gc_delivered ops r1) (gc_delivered ops r2) -> gc_eqv (reps (gc_run ops) r1) (reps (gc_run ops) r2).
+Proof. exact gc_convergence_from_laws. Qed.
+Print Assumptions gcounter_convergence_from_laws.
+
+Theorem lwwset_convergence_from_laws : forall ops r1 r2,
+  same_updates (lww_delivered ops r1) (lww_delivered ops r2) -> lww_eqv (reps (lww_run ops) r1) (reps (lww_run ops) r2).
+Proof. exact lww_convergence_from_laws. Qed.
+Print Assumptions lwwset_convergence_from_laws.
